@@ -396,18 +396,23 @@ func gen(r *hv.Rng, i int, tier string) (string, hv.Val) {
 				v := append([]byte(nil), hv.AsBytes(e[1])...)
 				switch r.Intn(4) {
 				case 0:
-					v = v[:r.Intn(len(v))]
+					if len(v) > 0 {
+						v = v[:r.Intn(len(v))]
+					}
 				case 1:
 					v = append(v, 0)
 				default:
 					// one bit of a header / length field: version, suite, master secret length, certificate
 					// count, first certificate length
-					ml := int(v[4])<<8 | int(v[5])
+					ml := 0
+					if len(v) >= 6 {
+						ml = int(v[4])<<8 | int(v[5])
+					}
 					cand := []int{0, 1, 2, 3, 4, 5, 6 + ml, 7 + ml, 8 + ml, 9 + ml, 10 + ml, 11 + ml}
 					pos := cand[r.Intn(len(cand))]
 					if pos < len(v) {
 						v[pos] ^= 1 << uint(r.Intn(3))
-					} else {
+					} else if len(v) > 0 {
 						v = v[:len(v)-1]
 					}
 				}
